@@ -4,6 +4,7 @@ package main
 
 import (
 	"fmt"
+	"os"
 	"sort"
 	"strings"
 	"time"
@@ -444,6 +445,9 @@ func (ex *Exec) concretize(t *Term) uint64 {
 			}
 		}
 		eq := ex.st.Eq(t, mkConst(t.w, v))
+		if debugConcretize {
+			fmt.Fprintf(os.Stderr, "concretize %s = %d at %s\n", t.String(), v, ex.where())
+		}
 		if ex.jpos >= ex.harness.MaxDepth {
 			ex.fail(stBudget, "fork depth %d exceeded while enumerating values of %s (%s)", ex.harness.MaxDepth, t.String(), ex.where())
 		}
@@ -709,3 +713,5 @@ func (ex *Exec) describePanic(v Value) string {
 	}
 	return fmt.Sprintf("panic(%T)", v)
 }
+
+var debugConcretize = os.Getenv("GOSYM_DEBUG_CONC") != ""
